@@ -278,6 +278,15 @@ def symmetric(ctx):
                     return (0,)
                 return (v,)
 
+            def assume(self, atom, truth, v):
+                # a channel that is waiting for the peer's Disconnection Response stays registered: the response handler
+                # deregisters it (C09.state-table), the link teardown drops the whole table
+                if v == 1 and isinstance(atom, ast.Compare) and len(atom.ops) == 1 and 'WAIT_DISCONNECT' in norm(atom) and '.state' in norm(atom):
+                    waiting = truth if isinstance(atom.ops[0], ast.Eq) else (not truth if isinstance(atom.ops[0], ast.NotEq) else None)
+                    if waiting:
+                        return (2,)
+                return (v,)
+
             def may_raise(self, call):
                 par = getattr(call, '_parent', None)
                 return True if isinstance(par, ast.Await) else None
